@@ -253,7 +253,7 @@ def run(ctx, rep):
     try:
         got["inst"] = dict(MI.call_function(fgm.node, [("loc",), inst], extra))
         got["cls"] = dict(MI.call_function(fgm.node, [("loc",), Cc], extra))
-    except (MI.Raised, AnalysisError, TypeError, ValueError) as ex:
+    except (MI.Raised, TypeError, ValueError) as ex:
         got["error"] = str(ex)
     okm = got.get("inst") == want_inst and got.get("cls") == want_cls
     rep.ob("R02.4", "get_methods walks the metaclass MRO and the class MRO for classes, the type MRO for instances", okm,
